@@ -61,7 +61,11 @@ def judge(acc, seq, payload, compact=False):
     if compact:
         payload = dict(payload, compact=True)
     acc.traces += 1
-    for d in impl.DIALECTS:
+    order = loaders.dialect_order(text)
+    only = payload.get("only_dialect")
+    for di, d in enumerate(order):
+        if only and d != only and d not in payload.get("prior_dialects", []):
+            continue
         mode = T.MODE[d]
         v = ver[mode]
         vo = ver["omni"] if d in ("OMNI", "ISIS") else None
@@ -76,8 +80,8 @@ def judge(acc, seq, payload, compact=False):
         if v[0] == "UNSPEC":
             acc.outcomes["unspecified"] += 1
             continue
-        case = {"tokens": [t[1] for t in seq], "dialect": d}
-        case.update(payload)
+        case = {"tokens": [t[1] for t in seq], "dialect": d, "prior_dialects": order[:di]}
+        case.update({k: v for k, v in payload.items() if k not in ("only_dialect", "prior_dialects")})
         if v[0] == "WELL":
             if r[0] == "doc":
                 # rejecting well-formed text is C03's business, not C05's
